@@ -96,6 +96,39 @@ SlotNames(c) == {"b" \o ToString(i) : i \in 0..(ChanCap[c] - 1)}
    ur2: return;
   }
 
+  \* ---- polling receive: fiber_bounded_channel_try_receive(btc) until it succeeds, fiber_yield() between attempts
+  procedure bc_tryrecv(btc)
+    variables bth = 0; btl = 0; btv = None;
+  {
+   bt0: bth := bchigh[btc];                     \* high first, as in the blocking receive
+   bt1: btl := bclow[btc];
+   bt2: btv := bcbuf[btc][BIdx(btc, btl)];
+        if (btv # None /\ bth > btl) {
+   bt3:   bcbuf[btc][BIdx(btc, btl)] := None;
+   bt4:   bclow[btc] := btl + 1;
+          chRecvd[btc] := Append(chRecvd[btc], SentRec(btc, btv));
+          rv[self] := btv;
+          return;
+        } else {
+          call yield(ThreadOf(self));           \* try_receive returned 0: the driver yields and tries again
+   bt5:   goto bt0;
+        }
+  }
+
+  \* ---- polling receive on an unbounded / single-producer channel: try_receive = one trypop of the queue
+  procedure uc_tryrecv(utc)
+  {
+   ut0: if (chq[utc] # <<>>) {                  \* mpsc_fifo_trypop / spsc_fifo_trypop (atomic section)
+          rv[self] := Head(chq[utc]);
+          chRecvd[utc] := Append(chRecvd[utc], SentRec(utc, Head(chq[utc])));
+          chq[utc] := Tail(chq[utc]);
+        } else {
+          call yield(ThreadOf(self));
+   ut1:   goto ut0;
+        };
+   ut2: return;
+  }
+
   \* ---- fiber_multi_channel_internal_wait(mzc): called with the channel's mutex held
   procedure mc_wait(mzc)
     variables mzm = 0;
@@ -172,6 +205,12 @@ SlotNames(c) == {"b" \o ToString(i) : i \in 0..(ChanCap[c] - 1)}
            } else {
              call mc_send(op[2], op[3]);
            };
+         } else if (op[1] = "tryrecv") {
+           if (op[2] \in BChans) {
+             call bc_tryrecv(op[2]);
+           } else {
+             call uc_tryrecv(op[2]);
+           };
          } else if (op[1] = "recv") {
            if (op[2] \in BChans) {
              call bc_recv(op[2]);
@@ -205,19 +244,23 @@ SlotNames(c) == {"b" \o ToString(i) : i \in 0..(ChanCap[c] - 1)}
 , "bchigh", "bclow", "bcbuf", "mcwaiters", "chq"
 #! PINNED
  @@ ("fiber_bounded_channel_send:low:R" :> {"bs0"}) @@ ("fiber_bounded_channel_send:high:R" :> {"bs1"}) @@ ("fiber_bounded_channel_send:high:CAS" :> {"bs3"})
+ @@ ("fiber_bounded_channel_try_receive:high:R" :> {"bt0"}) @@ ("fiber_bounded_channel_try_receive:low:R" :> {"bt1"}) @@ ("fiber_bounded_channel_try_receive:low:W" :> {"bt4"})
  @@ ("fiber_bounded_channel_receive:high:R" :> {"bx0"}) @@ ("fiber_bounded_channel_receive:low:R" :> {"bx1"}) @@ ("fiber_bounded_channel_receive:low:W" :> {"bx4"})
 #! FNPROC
 ,
            fiber_bounded_channel_send |-> {"bc_send"},
            fiber_bounded_channel_receive |-> {"bc_recv"},
+           fiber_bounded_channel_try_receive |-> {"bc_tryrecv"},
+           fiber_unbounded_channel_try_receive |-> {"uc_tryrecv"},
+           fiber_unbounded_sp_channel_try_receive |-> {"uc_tryrecv"},
            fiber_unbounded_channel_send |-> {"uc_send"},
            fiber_unbounded_channel_receive |-> {"uc_recv"},
            fiber_unbounded_sp_channel_send |-> {"uc_send"},
            fiber_unbounded_sp_channel_receive |-> {"uc_recv"},
            chq_mpsc_fifo_push |-> {"uc_send"},
            chq_spsc_fifo_push |-> {"uc_send"},
-           chq_mpsc_fifo_trypop |-> {"uc_recv", "sig_wait"},
-           chq_spsc_fifo_trypop |-> {"uc_recv", "sig_wait"},
+           chq_mpsc_fifo_trypop |-> {"uc_recv", "uc_tryrecv", "sig_wait", "yield"},
+           chq_spsc_fifo_trypop |-> {"uc_recv", "uc_tryrecv", "sig_wait", "yield"},
            fiber_multi_channel_send |-> {"mc_send"},
            fiber_multi_channel_receive |-> {"mc_recv"},
            fiber_multi_channel_internal_wait |-> {"mc_wait"},
@@ -229,7 +272,7 @@ SlotNames(c) == {"b" \o ToString(i) : i \in 0..(ChanCap[c] - 1)}
     \* sees the messages of one sender in the order they were sent
     [] e.op = "send" /\ e.ph = "call" ->
          [m EXCEPT !.chsent = @ \cup {<<e.o, e.v, e.f, Cardinality({x \in m.chsent : x[1] = e.o /\ x[3] = e.f}) + 1>>}]
-    [] e.op = "recv" /\ e.ph = "ret" ->
+    [] e.op \in {"recv", "tryrecv"} /\ e.ph = "ret" ->
          LET cand == {x \in m.chsent : x[1] = e.o /\ x[2] = e.v} IN
          IF cand = {} THEN MonBad(m, "a message was received that had not been sent")
          ELSE IF <<e.o, e.v>> \in m.chrecv THEN MonBad(m, "a message was received twice")
